@@ -911,7 +911,11 @@ func (fg *FGraph) FactsAt(id int) []Fact {
 // as a variable's initialisation). Computed once per loaded configuration.
 var immutableFields map[*types.Var]bool
 
+// elementStoredArrays: array-typed struct fields some element of which is stored to somewhere.
+var elementStoredArrays = map[*types.Var]bool{}
+
 func computeImmutableFields(c *Ctx) {
+	elementStoredArrays = map[*types.Var]bool{}
 	written := map[*types.Var]bool{}
 	all := map[*types.Var]bool{}
 	markStruct := func(t types.Type) {
@@ -962,7 +966,13 @@ func computeImmutableFields(c *Ctx) {
 							}
 						case *ast.IndexExpr:
 							// element store into a field-held slice/array/map: the field's *length* is
-							// unchanged for slices/arrays; nothing to mark
+							// unchanged for slices/arrays; nothing to mark for the length facts. An array
+							// held by value keeps the stored element as state of the struct, though.
+							if fv := fieldVar(info, lt.X); fv != nil {
+								if _, isArr := fv.Type().Underlying().(*types.Array); isArr {
+									elementStoredArrays[fv] = true
+								}
+							}
 						}
 					}
 				case *ast.IncDecStmt:
